@@ -26,7 +26,12 @@ struct TrackedThrow : std::runtime_error { TrackedThrow() : std::runtime_error("
 
 template <int Tag>
 struct Tracked {
+  // First member: ties the object's leading bytes to its address. A container that scribbles over a live
+  // value (e.g. by storing into another member of the union that holds it) before destroying it shows here.
+  std::uint64_t guard = make_guard(this);
   std::int32_t payload = 0;
+  static std::uint64_t make_guard(const void* p) { return 0x7ac4ed0b1ec7f00dull ^ (std::uint64_t)(std::uintptr_t)p; }
+  bool intact() const { return guard == make_guard(this); }
 
   void born() {
     auto& t = tracker();
@@ -38,7 +43,10 @@ struct Tracked {
     auto& t = tracker();
     if (t.throw_countdown > 0 && --t.throw_countdown == 0) { t.throw_countdown = -1; throw TrackedThrow(); }
   }
-  void check_alive(const char* what) const { if (!tracker().live.count(this)) tracker().error(std::string("use of dead object: ") + what); }
+  void check_alive(const char* what) const {
+    if (!tracker().live.count(this)) tracker().error(std::string("use of dead object: ") + what);
+    else if (!intact()) tracker().error(std::string("live object was overwritten from outside (leading bytes changed): ") + what);
+  }
 
   Tracked() { born(); }
   explicit Tracked(std::int32_t p) : payload(p) { born(); }
@@ -51,6 +59,7 @@ struct Tracked {
   ~Tracked() {
     auto& t = tracker();
     if (!t.live.erase(this)) t.error("destroyed an object that is not alive (double destruction)");
+    else if (!intact()) t.error("destructor ran on an object whose leading bytes were overwritten while it was alive");
     t.destroyed++;
   }
   bool operator==(const Tracked& o) const { return payload == o.payload; }
